@@ -2,6 +2,7 @@ import Uom.Model.Text
 import Uom.Gen.Table
 import Uom.Model.LabelCheck
 import Uom.Gen.Check.Labels
+import Uom.Proofs.TextLemmas
 /-!
 # C12 — parsing accepts exactly `<number> <unit label>` and inverts formatting
 
@@ -123,6 +124,80 @@ theorem labels_edge_clean : ∀ q ∈ Gen.table, labelsEdgeClean q = true := by
   unfold labelOk at h
   simp only [Bool.and_eq_true] at h
   exact h.2
+
+/-- every label of the regenerated table is a well-formed byte string (`code < 256^len`), so the
+    arithmetic `Str` encoding used by the kernel checks denotes exactly one byte list -/
+theorem table_labelsWFb : Gen.table.all QuantityDecl.labelsWFb = true := by decide +kernel
+
+theorem table_labelsWF : ∀ q ∈ Gen.table, q.LabelsWF := by
+  intro q hq
+  exact (QuantityDecl.labelsWFb_iff q).1 (List.all_eq_true.1 table_labelsWFb q hq)
+
+/-- the label a unit declaration prints, as a `Str` of the table -/
+def labelStr (u : UnitDecl) (style : Style) (isOne : Bool) : Str :=
+  match style with
+  | .abbreviation => u.abbr
+  | .description => if isOne then u.sing else u.plur
+
+def unitLabels (u : UnitDecl) : Labels := ⟨u.abbr.bytes, u.sing.bytes, u.plur.bytes⟩
+
+theorem label_eq_labelStr (u : UnitDecl) (style : Style) (b : Bool) :
+    label (unitLabels u) style b = (labelStr u style b).bytes := by
+  cases style
+  · rfl
+  · cases b <;> rfl
+
+theorem labelStr_mem (u : UnitDecl) (style : Style) (b : Bool) :
+    labelStr u style b = u.abbr ∨ labelStr u style b = u.sing ∨ labelStr u style b = u.plur := by
+  cases style
+  · exact Or.inl rfl
+  · cases b
+    · exact Or.inr (Or.inr rfl)
+    · exact Or.inr (Or.inl rfl)
+
+/-- **formatting inverts, for the whole registered table** (the two table obligations and the abstract
+    round trip composed): for every quantity `q` regenerated from src/si, every unit `u` of it, both
+    styles and every value `x` whose own text has no space and re-parses, parsing the formatted text
+    succeeds, and the unit `v` the parser selects (index `j`) has *the same coefficient and offset* as
+    `u` — so the parsed quantity is the construction of `x` in a unit that converts exactly like `u`. -/
+theorem roundtrip_table {V Q : Type} (parse : Bytes → Option V) (mk : Nat → V → Q)
+    (fmtV : V → Bytes) (isOne : V → Bool) (q : QuantityDecl) (hq : q ∈ Gen.table)
+    (u : UnitDecl) (hu : u ∈ q.units) (style : Style) (x : V)
+    (hsp : 0x20 ∉ fmtV x) (hparse : parse (fmtV x) = some x) :
+    ∃ j v, q.units[j]? = some v ∧ sameConversion u v = true ∧
+      fromStr q.labels parse mk (fmtArgs fmtV isOne (unitLabels u) style x) = .ok (mk j x) := by
+  have hwf := table_labelsWF q hq
+  have hfun := label_functional q hq
+  have hclean := labels_edge_clean q hq
+  -- the printed label as a `Str`
+  let l := labelStr u style (isOne x)
+  have hl_mem : l = u.abbr ∨ l = u.sing ∨ l = u.plur := labelStr_mem u style (isOne x)
+  have hlwf : l.WF := by
+    have := hwf u hu
+    rcases hl_mem with h | h | h <;> rw [h] <;> simp [this.1, this.2.1, this.2.2]
+  have hlclean : l.edgeClean = true := by
+    have h := List.all_eq_true.1 hclean u hu
+    simp only [Bool.and_eq_true] at h
+    rcases hl_mem with e | e | e <;> rw [e] <;> simp [h.1.1, h.1.2, h.2]
+  -- functional: the first match has the same conversion
+  have hf := List.all_eq_true.1 hfun u hu
+  have hf2 : ∀ s ∈ [u.abbr, u.sing, u.plur], (match lookupStr q s with | some v => sameConversion u v | none => false) = true :=
+    List.all_eq_true.1 hf
+  have hfl := hf2 l (by rcases hl_mem with e | e | e <;> simp [e])
+  cases hls : lookupStr q l with
+  | none => rw [hls] at hfl; exact absurd hfl (by simp)
+  | some v =>
+    rw [hls] at hfl
+    have hbind := lookupStr_eq_lookupLabel_bind hwf hlwf
+    rw [hls] at hbind
+    cases hlk : lookupLabel q.labels l.bytes with
+    | none => rw [hlk] at hbind; exact absurd hbind (by simp)
+    | some j =>
+      rw [hlk] at hbind
+      refine ⟨j, v, by simpa using hbind.symm, hfl, ?_⟩
+      have hlab : label (unitLabels u) style (isOne x) = l.bytes := label_eq_labelStr u style (isOne x)
+      exact roundtrip q.labels parse mk fmtV isOne (unitLabels u) style x j hsp hparse
+        (by rw [hlab]; exact Str.edgeClean_trim hlclean) (by rw [hlab]; exact hlk)
 
 /-- non-vacuity: `"1 km"` parses to unit 1 of a two-unit quantity; `"1km"` has no separator;
     `"x km"` is a bad number; `"1 mile"` an unknown unit; `"1 \u{a0}km\u{3000}"` parses (blanks trimmed) -/
